@@ -143,7 +143,34 @@ Definition cert_verdict (r : erun (R:=R)) (inputs : list (list nat)) (output : l
   else if negb (cert_views r) then 4
   else if cert_complete r inputs then 0 else 1.
 
+(** premises of the pointer theorem (C07_argmax): the summed-out einsum indices left in
+    index_to_vaxis are the summed labels of the specification, in its order; the strides of
+    their axes mention only unbound axes *)
+Definition cert_viterbi (r : erun (R:=R)) (inputs : list (list nat)) (output : list nat) : bool :=
+  match pop_all output (er_i2v r) with
+  | None => false
+  | Some rest =>
+      leqb (map fst rest) (summed_labels inputs output)
+      && forallb (fun le => match lassoc (fst le) (er_i2v r) with Some e => axis_eqb e (snd le) | None => false end) rest
+      && forallb (fun le => match stride (sfuel (er_sigma r) [snd le]) (er_sigma r) (snd le) with
+                            | Ok os => forallb (fun kc => unbound (er_sigma r) (fst kc)) (snd os)
+                            | Fail _ => false
+                            end) rest
+  end.
+
 Context {W : Type} (ofw : W -> R).
+
+(** as [einsum_cert], plus the pointer premises: 5 = they fail *)
+Definition viterbi_cert (x : list (wten (W:=W)) * list (list nat) * list nat * positive) : nat :=
+  let '(wts, inputs, output, next) := x in
+  let ts := map (st_of_wire ofw) wts in
+  match einsum_run o veqb false next ts inputs output with
+  | Ok r => let c := cert_verdict r inputs output in
+            if negb (Nat.eqb c 0) then c
+            else if er_failed r || er_zero_axis r then 0
+            else if cert_viterbi r inputs output then 0 else 5
+  | Fail _ => 9
+  end.
 
 Definition einsum_cert (x : list (wten (W:=W)) * list (list nat) * list nat * positive) : nat :=
   let '(wts, inputs, output, next) := x in
@@ -156,4 +183,5 @@ End Cert.
 
 Definition einsum_cert_real := einsum_cert (W:=option Q) ereal_ops eeqb ereal_of.
 Definition einsum_cert_trop := einsum_cert (W:=nat * Q) trop_ops teqb trop_of.
+Definition viterbi_cert_trop := viterbi_cert (W:=nat * Q) trop_ops teqb trop_of.
 Definition einsum_cert_bool := einsum_cert (W:=bool) bool_ops Bool.eqb (fun b => b).
